@@ -5,7 +5,7 @@ import subprocess, sys, os
 M = {
  # name: (file, old, new, [properties expected to fire])
  "c01-swap-dtm": ("src/epd4in2/mod.rs", ".cmd_with_data(spi, Command::DataStartTransmission2, buffer)?;", ".cmd_with_data(spi, Command::DataStartTransmission1, buffer)?;", ["C01"]),
- "c01-7in5-expansion": ("src/epd7in5/mod.rs", "0x33", "0x30", ["C01", "C07"]),
+ "c07-7in5-fill-value": ("src/epd7in5/mod.rs", ".data_x_times(spi, 0x33,", ".data_x_times(spi, 0x30,", ["C07"]),
  "c01-drop-counter-reset": ("src/epd1in54/mod.rs", "        // start from the beginning\n        self.set_ram_counter(spi, delay, 0, 0)", "        // start from the beginning\n        Ok(())", ["C02", "C01"]),
  "c10-chunk-4097": ("src/interface.rs", "data.chunks(4096)", "data.chunks(4097)", ["C10"]),
  "c10-dc-after-write": ("src/interface.rs", "        let _ = self.dc.set_low();\n\n        // Transfer the command over spi\n        self.write(spi, &[command.address()])", "        // Transfer the command over spi\n        let r = self.write(spi, &[command.address()]);\n        let _ = self.dc.set_low();\n        r", ["C10"]),
@@ -17,7 +17,7 @@ M = {
  "c15-flush-missing": ("src/epd12in48b_v2/mod.rs", "        self.write_partial(Command::DataStartTransmission2, window, pixels)?;\n        self.flush()", "        self.write_partial(Command::DataStartTransmission2, window, pixels)", ["C15"]),
  "c15-bdv-table": ("src/epd12in48b_v2/mod.rs", "            (true, BorderLUT::LUTW) => 0b01,", "            (true, BorderLUT::LUTW) => 0b10,", ["C15"]),
  "c18-resolution-swap": ("src/epd4in2/mod.rs", "        self.send_data(spi, &[(w >> 8) as u8])?;\n        self.send_data(spi, &[w as u8])?;\n        self.send_data(spi, &[(h >> 8) as u8])?;\n        self.send_data(spi, &[h as u8])", "        self.send_data(spi, &[(h >> 8) as u8])?;\n        self.send_data(spi, &[h as u8])?;\n        self.send_data(spi, &[(w >> 8) as u8])?;\n        self.send_data(spi, &[w as u8])", ["C18"]),
- "c18-opcode": ("src/epd2in9_v2/mod.rs", "Command::BorderWaveformControl, &[0x80]", "Command::BorderWaveformControl, &[]", []),
+ "c18-opcode": ("src/epd2in9_v2/mod.rs", "Command::DisplayUpdateControl2, &[0xC0]", "Command::DisplayUpdateControl2, &[]", ["C18"]),
  "c04-swallow": ("src/epd4in2/mod.rs", "        self.interface\n            .data_x_times(spi, color_value, WIDTH / 8 * HEIGHT)?;\n\n        self.interface\n            .cmd_with_data(spi, Command::DataStartTransmission2, buffer)?;", "        let _ = self\n            .interface\n            .data_x_times(spi, color_value, WIDTH / 8 * HEIGHT);\n\n        self.interface\n            .cmd_with_data(spi, Command::DataStartTransmission2, buffer)?;", ["C04"]),
  "c09-no-pon": ("src/epd4in2/mod.rs", "        self.command(spi, Command::PowerOn)?;\n", "", ["C09"]),
  "c17-reload-full": ("src/epd1in54/mod.rs", "        match self.refresh {\n            RefreshLut::Full => self.set_lut_helper(spi, delay, &LUT_FULL_UPDATE),", "        match refresh_rate.unwrap_or_default() {\n            RefreshLut::Full => self.set_lut_helper(spi, delay, &LUT_FULL_UPDATE),", ["C17"]),
